@@ -2,7 +2,9 @@ package gojq
 
 import (
 	"context"
+	"encoding/json"
 	"math"
+	"math/big"
 	"reflect"
 	"sort"
 )
@@ -421,9 +423,15 @@ func (env *env) pathIntact(v any) bool {
 			v, w := reflect.ValueOf(v), reflect.ValueOf(w)
 			return v.Pointer() == w.Pointer() && v.Len() == w.Len()
 		}
-	case float64:
-		if w, ok := w.(float64); ok {
-			return v == w || math.IsNaN(v) && math.IsNaN(w)
+	case int, float64, *big.Int, json.Number:
+		switch w.(type) {
+		case int, float64, *big.Int, json.Number:
+			// numbers are compared by value, whatever type carries them
+			if v, ok := v.(float64); ok && math.IsNaN(v) {
+				w, ok := w.(float64)
+				return ok && math.IsNaN(w)
+			}
+			return Compare(v, w) == 0
 		}
 	}
 	return v == w
